@@ -126,6 +126,19 @@ pub fn remove_private_devices() {
     }
 }
 
+/// The time caps of a subject process, set between fork and exec: `cpu_s` seconds of *CPU time*
+/// (SIGXCPU; independent of how busy the machine is, so that a slow but terminating run on a loaded
+/// machine is not taken for a hang) and ten times as many seconds of wall time (SIGALRM; for a
+/// process that blocks without computing).
+///
+/// # Safety
+/// Only async-signal-safe libc calls; meant for `pre_exec`.
+unsafe fn arm_caps(cpu_s: u32) {
+    let lim = libc::rlimit { rlim_cur: cpu_s as libc::rlim_t, rlim_max: cpu_s as libc::rlim_t + 5 };
+    libc::setrlimit(libc::RLIMIT_CPU, &lim);
+    libc::alarm(cpu_s.saturating_mul(10));
+}
+
 /// Per-process scratch directory under /verif/target/scratch, removed at exit.
 pub struct Scratch {
     pub dir: PathBuf,
@@ -182,7 +195,7 @@ pub fn run_sfs_with_path(args: &[&str], path: &Path, scratch: &Scratch) -> Out {
     // SAFETY: only async-signal-safe libc calls between fork and exec.
     unsafe {
         cmd.pre_exec(|| {
-            libc::alarm(60);
+            arm_caps(60);
             Ok(())
         });
     }
@@ -272,7 +285,7 @@ pub fn run_sfs_env(
                 libc::rmdir(d.as_ptr());
             }
             // wall-clock cap: the alarm survives exec; SIGALRM's default action terminates
-            libc::alarm(wall);
+            arm_caps(wall);
             Ok(())
         });
     }
@@ -362,7 +375,7 @@ pub fn run_sfs_piped(args: &[&str], chunks: &[&[u8]], delay_ms: u64, scratch: &S
     // SAFETY: only async-signal-safe libc calls between fork and exec.
     unsafe {
         cmd.pre_exec(|| {
-            libc::alarm(60);
+            arm_caps(60);
             Ok(())
         });
     }
@@ -506,7 +519,7 @@ pub fn run_sfs_fifo_at(args: &[&str], bytes: &[u8], suffix: &str, stdin: Stdin, 
     // SAFETY: only async-signal-safe libc calls between fork and exec.
     unsafe {
         cmd.pre_exec(|| {
-            libc::alarm(60);
+            arm_caps(60);
             Ok(())
         });
     }
@@ -632,7 +645,7 @@ pub fn run_sfs_stdout_to(args: &[&str], stdin: &[u8], sink: &Path, scratch: &Scr
     // SAFETY: only async-signal-safe libc calls between fork and exec.
     unsafe {
         cmd.pre_exec(|| {
-            libc::alarm(60);
+            arm_caps(60);
             Ok(())
         });
     }
@@ -665,7 +678,7 @@ pub fn run_sfs_stdout_appended(args: &[&str], stdin: &[u8], earlier: &[u8], scra
     // SAFETY: only async-signal-safe libc calls between fork and exec.
     unsafe {
         cmd.pre_exec(|| {
-            libc::alarm(60);
+            arm_caps(60);
             Ok(())
         });
     }
@@ -705,7 +718,7 @@ pub fn run_sfs_stdin_terminal(args: &[&str], scratch: &Scratch) -> Option<Out> {
     // SAFETY: only async-signal-safe libc calls between fork and exec.
     unsafe {
         cmd.pre_exec(|| {
-            libc::alarm(60);
+            arm_caps(60);
             Ok(())
         });
     }
@@ -763,7 +776,7 @@ pub fn run_sfs_stdin_kind(args: &[&str], kind: &str, scratch: &Scratch) -> Out {
             if close0 {
                 libc::close(0);
             }
-            libc::alarm(60);
+            arm_caps(60);
             Ok(())
         });
     }
@@ -804,7 +817,7 @@ pub fn run_sfs_stdout_closed_pipe(args: &[&str], stdin: &[u8], scratch: &Scratch
     // SAFETY: only async-signal-safe libc calls between fork and exec.
     unsafe {
         cmd.pre_exec(|| {
-            libc::alarm(60);
+            arm_caps(60);
             Ok(())
         });
     }
